@@ -146,3 +146,31 @@ theorem orderlen_pos (n : Nat) : 1 ≤ Util.orderlen n := by
   unfold Util.orderlen; have := hexLen_pos n; omega
 
 end Rand
+
+namespace Rand
+
+/-- with a hash that never returns the empty string (SHA-256 returns 32 bytes) two steps of fuel always yield a byte -/
+theorem prngNext_some (H : Bytes → Bytes) (seedStr : Bytes) (hH : ∀ x, H x ≠ []) (fuel : Nat) (hf : 2 ≤ fuel) (st : PrngState) :
+    ∃ b st', prngNext H seedStr fuel st = some (b, st') := by
+  obtain ⟨f, rfl⟩ : ∃ f, fuel = f + 2 := ⟨fuel - 2, by omega⟩
+  unfold prngNext
+  cases hb : st.buf with
+  | cons b rest => exact ⟨b, _, rfl⟩
+  | nil =>
+    simp only
+    unfold prngNext
+    cases hh : H (prngInput st.counter seedStr) with
+    | nil => exact absurd hh (hH _)
+    | cons b rest => exact ⟨b, _, rfl⟩
+
+theorem prngRead_some (H : Bytes → Bytes) (seedStr : Bytes) (hH : ∀ x, H x ≠ []) (fuel : Nat) (hf : 2 ≤ fuel) (n : Nat) :
+    ∀ st, ∃ bs st', prngRead H seedStr fuel n st = some (bs, st') := by
+  induction n with
+  | zero => intro st; exact ⟨[], st, rfl⟩
+  | succ n ih =>
+    intro st
+    obtain ⟨b, st1, h1⟩ := prngNext_some H seedStr hH fuel hf st
+    obtain ⟨bs, st2, h2⟩ := ih st1
+    exact ⟨b :: bs, st2, by rw [prngRead, h1]; simp only [h2]⟩
+
+end Rand
